@@ -65,6 +65,7 @@ type History struct {
 	mu     sync.Mutex
 	start  time.Time
 	frozen bool
+	Off    bool // set before the run starts, never changed afterwards
 	Events []Event
 }
 
@@ -87,6 +88,9 @@ func (h *History) Add(e Event) int { return h.add(e, false) }
 func (h *History) AddForce(e Event) int { return h.add(e, true) }
 
 func (h *History) add(e Event, force bool) int {
+	if h.Off { // race mode: no recording, and above all no global lock (or atomic) that would order unrelated goroutines
+		return 1
+	}
 	h.mu.Lock()
 	defer h.mu.Unlock()
 	if h.frozen && !force {
